@@ -437,6 +437,7 @@ impl Runner
     pub fn new(case : &Case) -> Runner
     {
         super::scen::set_ruler_dir(&case.ruler_dir_name());
+        model::set_dir_leaves(case.dir_leaves());
         let world = World::new(case.knobs.clone(), &ruler_dir());
         if let Some(t) = case.marker("clock").and_then(|t| t.parse::<u64>().ok()) { world.set_clock(t); }
         for d in case.dirs.iter()
@@ -603,6 +604,13 @@ impl Runner
                 self.user_op_happened();
                 None
             },
+            Op::DirAt{ path } =>
+            {
+                self.world.user_delete(&path);
+                self.world.user_mkdir(&path);
+                self.user_op_happened();
+                None
+            },
             Op::MakeDirs =>
             {
                 for d in self.case.dirs.clone().iter() { if !d.starts_with('@') { self.world.user_mkdir(d); } }
@@ -704,7 +712,7 @@ impl Runner
                         let mut ok = true;
                         for s in rule.sorted_sources()
                         {
-                            match ws.get(&s) { Some((c, _)) => srcs.push((**c).clone()), None => ok = false }
+                            match model::leaf_bytes(&s, &|p : &str| ws.get(p).map(|(c, _)| (**c).clone())) { Some(c) => srcs.push(c), None => ok = false }
                         }
                         let mut outs = vec![];
                         for t in rule.sorted_targets()
